@@ -114,14 +114,14 @@ def sorted_chain_case(rng, n):
     return {"engine": "history", "cfg": cfg, "ops": ops, "audit_every": len(ops), "aseed": rng.getrandbits(32), "sorted_chain": n}
 
 
-def big_case(rng, n):
+def big_case(rng, n, name=b"big", merged_prefixes=1100):
     """Scale: one webentity with n pages (n > 2000, so the yield thresholds 1000 / 2000 / 5000 of the
     *_iter requests are crossed in their natural, non-forced mode), a hub with n-2 distinct inbound
     sources, a page with n-2 outbound links submitted as ONE crawl batch (larger than any yield
     frequency), > 5000 links inside the webentity, one pair submitted 300 times (weight beyond one
     byte), a nested webentity with a few hundred pages, a second site linked both ways, a reopen in
     the middle on file back-ends."""
-    site = b"s:http|h:com|h:big|"
+    site = b"s:http|h:com|h:" + name + b"|"
     pages = [site + b"p:%04d|" % i for i in range(n)]
     rng.shuffle(pages)
     ops = []
@@ -144,7 +144,13 @@ def big_case(rng, n):
     ops.append({"op": "add_links", "links": [[pages[5], pages[6]]] * 300 + [[hub, hub]] * 3, "as_str": False})
     ops.append({"op": "add_links", "links": [[rng.choice(pages), rng.choice(pages)] for _ in range(1500)], "as_str": False})
     ops.append({"op": "add_page", "lru": hub, "crawled": True, "as_str": False})
-    return {"engine": "history", "cfg": cfg, "ops": ops, "audit_every": len(ops), "aseed": rng.getrandbits(32), "big": n}
+    # one explicit creation request with more than a thousand prefixes (a merge of many sites), pages below a few of them
+    if merged_prefixes:
+        merged = [b"s:http|h:net|h:m%04d|" % i for i in range(merged_prefixes)]
+        ops.append({"op": "create", "prefixes": merged})
+        ops.append({"op": "add_pages", "lrus": [rng.choice(merged) + b"p:%d|" % i for i in range(40)], "crawled": True, "as_str": False})
+    return {"engine": "history", "cfg": cfg, "ops": ops, "audit_every": len(ops), "aseed": rng.getrandbits(32), "big": n,
+            "probes": [hub, fan, pages[5], pages[6], nested, site]}
 
 
 def wide_case(rng, n_sites):
@@ -395,6 +401,8 @@ def run_shard(prop, spec, tier, seed, shard, nshards, scratch):
             if saved < SAVE_MAX:
                 saved += 1
                 small = case
+                case["violation"] = d
+                save_case(prop, seed, shard, idx, case)  # as witnessed, before the (bounded) minimisation
                 try:
                     small = minimize(prop, case, spec, scratch, d["kind"])
                 except Exception as e:
